@@ -388,3 +388,244 @@ pub fn invisible_calls(m: &ast::Module) -> Vec<(String, String)> {
     visit(&m.root_definitions, "", &free, &methods, &leafs, &mut out);
     out
 }
+
+fn expr_mentions(e: &ast::Expression, name: &str) -> bool {
+    use ast::Expression as E;
+    match e {
+        E::Literal(_) | E::SizeOf(_) => false,
+        E::Identifier(id) => id.identifiers.len() == 1 && id.identifiers[0].node == name,
+        E::UnaryOperation(_, a) | E::Cast(_, a) | E::Member(a, _) => expr_mentions(&a.node, name),
+        E::BinaryOperation(_, a, b) | E::ArraySubscript(a, b) => expr_mentions(&a.node, name) || expr_mentions(&b.node, name),
+        E::TernaryConditional(a, b, c) => expr_mentions(&a.node, name) || expr_mentions(&b.node, name) || expr_mentions(&c.node, name),
+        E::Call(callee, _, args) => (!matches!(callee.node, E::Identifier(_)) && expr_mentions(&callee.node, name)) || args.iter().any(|a| expr_mentions(&a.node, name)),
+        E::BracedInit(_, inits) => inits.iter().any(|i| init_mentions(i, name)),
+        E::AmbiguousParseBranch(branches) => branches.first().map(|b| expr_mentions(&b.expr.node, name)).unwrap_or(false),
+    }
+}
+
+fn init_mentions(i: &ast::Initializer, name: &str) -> bool {
+    match i {
+        ast::Initializer::Expression(e) => expr_mentions(&e.node, name),
+        ast::Initializer::Aggregate(v) => v.iter().any(|x| init_mentions(x, name)),
+        ast::Initializer::StaticSampler(_) => false,
+    }
+}
+
+fn stmt_self_named(s: &ast::Statement, out: &mut Vec<String>) {
+    use ast::StatementKind as K;
+    let vardef = |d: &ast::VarDef, out: &mut Vec<String>| {
+        for def in &d.defs {
+            if let (Some(i), Some(n)) = (&def.init, declarator_name(&def.declarator)) {
+                if init_mentions(i, &n) {
+                    out.push(n);
+                }
+            }
+        }
+    };
+    match &s.kind {
+        K::Empty | K::Break | K::Continue | K::Discard | K::Expression(_) | K::Return(_) => {}
+        K::Var(d) | K::AmbiguousDeclarationOrExpression(d, _) => vardef(d, out),
+        K::Block(v) => v.iter().for_each(|x| stmt_self_named(x, out)),
+        K::If(_, b) | K::While(_, b) | K::Switch(_, b) | K::DoWhile(b, _) | K::CaseLabel(_, b) | K::DefaultLabel(b) => stmt_self_named(b, out),
+        K::IfElse(_, a, b) => {
+            stmt_self_named(a, out);
+            stmt_self_named(b, out);
+        }
+        K::For(init, _, _, body) => {
+            if let ast::InitStatement::Declaration(d) = init {
+                vardef(d, out);
+            }
+            stmt_self_named(body, out);
+        }
+    }
+}
+
+/// Names of local variables whose initialiser mentions the variable's own name (`int x = x + 1;`): by the C++ point of
+/// declaration rule that is the new variable itself, whatever the name denoted in front of the declaration.
+pub fn self_named_initialisers(m: &ast::Module) -> Vec<String> {
+    fn visit(defs: &[ast::RootDefinition], out: &mut Vec<String>) {
+        for d in defs {
+            match d {
+                ast::RootDefinition::Function(f) => {
+                    if let Some(body) = &f.body {
+                        body.iter().for_each(|s| stmt_self_named(s, out));
+                    }
+                }
+                ast::RootDefinition::Struct(sd) => {
+                    for member in &sd.members {
+                        if let ast::StructEntry::Method(f) = member {
+                            if let Some(body) = &f.body {
+                                body.iter().for_each(|s| stmt_self_named(s, out));
+                            }
+                        }
+                    }
+                }
+                ast::RootDefinition::Namespace(_, inner) => visit(inner, out),
+                _ => {}
+            }
+        }
+    }
+    let mut out = Vec::new();
+    visit(&m.root_definitions, &mut out);
+    out
+}
+
+fn each_subexpr(e: &ast::Expression, f: &mut dyn FnMut(&ast::Expression)) {
+    use ast::Expression as E;
+    f(e);
+    match e {
+        E::Literal(_) | E::SizeOf(_) | E::Identifier(_) => {}
+        E::UnaryOperation(_, a) | E::Cast(_, a) | E::Member(a, _) => each_subexpr(&a.node, f),
+        E::BinaryOperation(_, a, b) | E::ArraySubscript(a, b) => {
+            each_subexpr(&a.node, f);
+            each_subexpr(&b.node, f);
+        }
+        E::TernaryConditional(a, b, c) => {
+            each_subexpr(&a.node, f);
+            each_subexpr(&b.node, f);
+            each_subexpr(&c.node, f);
+        }
+        E::Call(callee, _, args) => {
+            each_subexpr(&callee.node, f);
+            args.iter().for_each(|a| each_subexpr(&a.node, f));
+        }
+        E::BracedInit(_, inits) => inits.iter().for_each(|i| each_init_expr(i, f)),
+        E::AmbiguousParseBranch(branches) => {
+            if let Some(b) = branches.first() {
+                each_subexpr(&b.expr.node, f);
+            }
+        }
+    }
+}
+
+fn each_init_expr(i: &ast::Initializer, f: &mut dyn FnMut(&ast::Expression)) {
+    match i {
+        ast::Initializer::Expression(e) => each_subexpr(&e.node, f),
+        ast::Initializer::Aggregate(v) => v.iter().for_each(|x| each_init_expr(x, f)),
+        ast::Initializer::StaticSampler(_) => {}
+    }
+}
+
+fn each_stmt_expr(s: &ast::Statement, f: &mut dyn FnMut(&ast::Expression)) {
+    use ast::StatementKind as K;
+    let vardef = |d: &ast::VarDef, f: &mut dyn FnMut(&ast::Expression)| {
+        for def in &d.defs {
+            if let Some(i) = &def.init {
+                each_init_expr(i, f);
+            }
+        }
+    };
+    match &s.kind {
+        K::Empty | K::Break | K::Continue | K::Discard => {}
+        K::Expression(e) => each_subexpr(e, f),
+        K::Var(d) => vardef(d, f),
+        K::AmbiguousDeclarationOrExpression(d, e) => {
+            vardef(d, f);
+            each_subexpr(e, f);
+        }
+        K::Block(v) => v.iter().for_each(|x| each_stmt_expr(x, f)),
+        K::If(c, b) | K::While(c, b) | K::Switch(c, b) => {
+            each_subexpr(&c.node, f);
+            each_stmt_expr(b, f);
+        }
+        K::DoWhile(b, c) => {
+            each_stmt_expr(b, f);
+            each_subexpr(&c.node, f);
+        }
+        K::IfElse(c, a, b) => {
+            each_subexpr(&c.node, f);
+            each_stmt_expr(a, f);
+            each_stmt_expr(b, f);
+        }
+        K::For(init, c, inc, body) => {
+            match init {
+                ast::InitStatement::Empty => {}
+                ast::InitStatement::Expression(e) => each_subexpr(&e.node, f),
+                ast::InitStatement::Declaration(d) => vardef(d, f),
+            }
+            if let Some(c) = c {
+                each_subexpr(&c.node, f);
+            }
+            if let Some(i) = inc {
+                each_subexpr(&i.node, f);
+            }
+            each_stmt_expr(body, f);
+        }
+        K::Return(e) => {
+            if let Some(e) = e {
+                each_subexpr(&e.node, f);
+            }
+        }
+        K::CaseLabel(e, next) => {
+            each_subexpr(&e.node, f);
+            each_stmt_expr(next, f);
+        }
+        K::DefaultLabel(next) => each_stmt_expr(next, f),
+    }
+}
+
+fn lvalue_root(e: &ast::Expression) -> Option<&str> {
+    match e {
+        ast::Expression::Identifier(id) if id.identifiers.len() == 1 => Some(id.identifiers[0].node.as_str()),
+        ast::Expression::ArraySubscript(a, _) | ast::Expression::Member(a, _) => lvalue_root(&a.node),
+        _ => None,
+    }
+}
+
+/// (function, parameter) for every parameter declared as a plain array (`int a[2]`, no reference) that the function body
+/// assigns to, increments or decrements: in C++ / Metal such a parameter is a pointer to the caller's array.
+pub fn written_array_parameters(m: &ast::Module) -> Vec<(String, String)> {
+    fn is_plain_array(d: &ast::Declarator) -> bool {
+        match d {
+            ast::Declarator::Array(a) => matches!(*a.inner, ast::Declarator::Identifier(..)) || is_plain_array(&a.inner),
+            _ => false,
+        }
+    }
+    fn function(f: &ast::FunctionDefinition, out: &mut Vec<(String, String)>) {
+        let Some(body) = &f.body else { return };
+        for p in &f.params {
+            if !is_plain_array(&p.declarator) {
+                continue;
+            }
+            let Some(name) = declarator_name(&p.declarator) else { continue };
+            let mut written = false;
+            for s in body {
+                each_stmt_expr(s, &mut |e| {
+                    use ast::BinOp as B;
+                    use ast::UnaryOp as U;
+                    match e {
+                        ast::Expression::BinaryOperation(
+                            B::Assignment | B::SumAssignment | B::DifferenceAssignment | B::ProductAssignment | B::QuotientAssignment | B::RemainderAssignment | B::LeftShiftAssignment | B::RightShiftAssignment | B::BitwiseAndAssignment | B::BitwiseOrAssignment | B::BitwiseXorAssignment,
+                            target,
+                            _,
+                        ) => written |= lvalue_root(&target.node) == Some(name.as_str()),
+                        ast::Expression::UnaryOperation(U::PrefixIncrement | U::PrefixDecrement | U::PostfixIncrement | U::PostfixDecrement, target) => written |= lvalue_root(&target.node) == Some(name.as_str()),
+                        _ => {}
+                    }
+                });
+            }
+            if written {
+                out.push((f.name.node.clone(), name));
+            }
+        }
+    }
+    fn visit(defs: &[ast::RootDefinition], out: &mut Vec<(String, String)>) {
+        for d in defs {
+            match d {
+                ast::RootDefinition::Function(f) => function(f, out),
+                ast::RootDefinition::Struct(sd) => {
+                    for member in &sd.members {
+                        if let ast::StructEntry::Method(f) = member {
+                            function(f, out);
+                        }
+                    }
+                }
+                ast::RootDefinition::Namespace(_, inner) => visit(inner, out),
+                _ => {}
+            }
+        }
+    }
+    let mut out = Vec::new();
+    visit(&m.root_definitions, &mut out);
+    out
+}
